@@ -92,9 +92,12 @@ Proof. intros. unfold bytes_ok. apply forallb_app. Qed.
 
 Lemma le_decode_nonneg : forall l, bytes_ok l = true -> 0 <= le_decode l.
 Proof.
-  induction l as [|b l IH]; simpl; intros H; [lia|].
+  induction l as [|b l IH]; intros H; [simpl; lia|].
+  change (le_decode (b :: l)) with (b + 256 * le_decode l).
+  change (bytes_ok (b :: l)) with (byte_ok b && bytes_ok l) in H.
   apply andb_true_iff in H. destruct H as [Hb Hl]. unfold byte_ok in Hb.
-  apply andb_true_iff in Hb. specialize (IH Hl). lia.
+  apply andb_true_iff in Hb. destruct Hb as [H0 H1].
+  apply Z.leb_le in H0. apply Z.ltb_lt in H1. specialize (IH Hl). lia.
 Qed.
 
 Lemma bytes_ok_take : forall n l, bytes_ok l = true -> bytes_ok (take n l) = true.
@@ -171,7 +174,7 @@ Lemma feed_unfold : forall t s d,
   else (s, [], Ok).
 Proof.
   intros t s d. unfold feed. destruct d as [|x d]; [reflexivity|].
-  simpl length. simpl feed_loop.
+  cbn [length feed_loop].
   destruct (guard s (x :: d)) eqn:Hg; [|reflexivity].
   destruct (body t s (x :: d)) as [[[s1 o1] r] rest] eqn:Hb.
   destruct r; [reflexivity|].
@@ -305,41 +308,42 @@ Lemma feed_never_out_of_fuel : forall t s d, snd (feed t s d) <> OutOfFuel.
 Proof. intros. apply (feed_status t (length d)). lia. Qed.
 
 (* a raise always leaves the parser in its initial state, the error is the last output *)
+Lemma fin_cases : forall t s s1 o1 r, fin t s = (s1, o1, r) ->
+  (r = true /\ s1 = reset /\ exists ty, o1 = [Error ty]) \/ (r = false /\ has_error o1 = false).
+Proof.
+  intros t [st n p i] s1 o1 r H. unfold fin in H. cbn [p_st p_pkt p_info p_needed] in H. destruct st.
+  - destruct (lookup t _).
+    + cbn in H. inversion H. right. split; reflexivity.
+    + inversion H. left. repeat split. eexists. reflexivity.
+  - cbn in H. destruct (_ =? 0) in H; inversion H; right; split; reflexivity.
+  - cbn in H. destruct (_ =? 0) in H; inversion H; right; split; reflexivity.
+Qed.
+
+Lemma has_error_app : forall a b, has_error a = false -> has_error (a ++ b) = has_error b.
+Proof. induction a as [|[p|e] a IH]; simpl; intros; auto. discriminate. Qed.
+
 Lemma feed_raise_resets_n : forall t n d s s' o, (length d <= n)%nat ->
-  feed t s d = (s', o, Raised) -> s' = reset /\ exists o' ty, o = o' ++ [Error ty] /\ has_error o' = false.
+  feed t s d = (s', o, Raised) ->
+  s' = reset /\ exists o' ty, o = o' ++ [Error ty] /\ has_error o' = false.
 Proof.
   induction n as [|n IH]; intros d s s' o Hl H.
   - destruct d; [|simpl in Hl; lia]. simpl in H. discriminate.
   - rewrite feed_unfold in H. destruct (guard s d) eqn:Hg; [|discriminate].
     destruct (body t s d) as [[[s1 o1] r] rest] eqn:Hb.
     pose proof (body_shrinks _ _ _ _ _ _ _ Hg Hb) as Hsh.
-    unfold body in Hb. destruct (p_needed _ =? 0).
-    + destruct (fin t _) as [[s2 o2] r2] eqn:Hf. inversion Hb; subst; clear Hb.
-      unfold fin in Hf.
-      destruct r.
-      * inversion H; subst; clear H.
-        destruct (p_st _).
-        -- destruct (lookup t _).
-           ++ simpl in Hf. inversion Hf.
-           ++ inversion Hf; subst. split; [reflexivity|]. exists [], (hd 0 (p_pkt (acc s (take (Z.min (p_needed s) (len d)) d)))).
-              split; reflexivity.
-        -- simpl in Hf. destruct (_ =? 0); inversion Hf.
-        -- simpl in Hf. destruct (_ =? 0); inversion Hf.
-      * destruct (feed t s1 rest) as [[s3 o3] st3] eqn:Hr. simpl in H. inversion H; subst; clear H.
-        destruct (IH rest s1 s' o3) as (Hs & o' & ty & Ho & He); [lia|assumption|].
-        split; [assumption|].
-        assert (Ho1 : has_error o1 = false).
-        { destruct (p_st _).
-          - destruct (lookup t _); inversion Hf; reflexivity.
-          - simpl in Hf. destruct (_ =? 0); inversion Hf; reflexivity.
-          - simpl in Hf. destruct (_ =? 0); inversion Hf; reflexivity. }
-        exists (o1 ++ o'), ty. split.
-        -- rewrite Ho, app_assoc. reflexivity.
-        -- clear - Ho1 He. induction o1 as [|[p|e] o1 IHo]; simpl in *; auto. discriminate.
-    + inversion Hb; subst; clear Hb.
-      destruct (feed t s1 rest) as [[s3 o3] st3] eqn:Hr. simpl in H. inversion H; subst; clear H.
+    assert (Hc : (r = true /\ s1 = reset /\ exists ty, o1 = [Error ty]) \/
+                 (r = false /\ has_error o1 = false)).
+    { unfold body in Hb. destruct (p_needed _ =? 0).
+      - destruct (fin t _) as [[s2 o2] r2] eqn:Hf. inversion Hb; subst.
+        eapply fin_cases; eauto.
+      - inversion Hb; subst. right. split; reflexivity. }
+    destruct Hc as [(-> & -> & ty & ->) | (-> & He1)].
+    + inversion H; subst. split; [reflexivity|]. exists [], ty. split; reflexivity.
+    + destruct (feed t s1 rest) as [[s3 o3] st3] eqn:Hr. simpl in H. inversion H; subst; clear H.
       destruct (IH rest s1 s' o3) as (Hs & o' & ty & Ho & He); [lia|assumption|].
-      split; [assumption|]. exists o', ty. split; assumption.
+      split; [assumption|]. exists (o1 ++ o'), ty. split.
+      * rewrite Ho, app_assoc. reflexivity.
+      * rewrite has_error_app; assumption.
 Qed.
 
 Lemma feed_raise_resets : forall t d s s' o,
